@@ -47,7 +47,7 @@ ASSUMPTIONS = common.BASE_ASSUMPTIONS + [
 REAL_VS_STUB = common.REAL_VS_STUB
 QUICK_RUNS = 5200
 EXPECTED_PROBES = {
-    t: ["history_runs", "thread_runs", "aborted_ops", "setattr_attempts", "delattr_attempts", "thread_switches", "cfgtp5_poll_ops", "config_ops", "construct_ops", "switch_inside__set_attribute"]
+    t: ["history_runs", "thread_runs", "aborted_ops", "setattr_attempts", "delattr_attempts", "thread_switches", "cfgtp5_poll_ops", "config_ops", "construct_ops", "read_ops", "switch_inside__set_attribute"]
     for t in ("quick", "thorough")
 }
 
@@ -142,6 +142,33 @@ def _make(op):
     raise ValueError(o)
 
 
+def _read_result(op):
+    """Iterate a UBXReader over an in-memory stream (errors go to a handler, never to the logger)."""
+    from pyubx2 import UBXReader  # pylint: disable=import-outside-toplevel
+
+    errs = []
+    ubr = UBXReader(
+        io.BytesIO(bytes.fromhex(op["hex"])),
+        msgmode=op["mm"],
+        validate=op.get("val", 1),
+        quitonerror=op["q"],
+        parsebitfield=op.get("pbf", 1),
+        protfilter=op.get("pf", 7),
+        errorhandler=lambda err: errs.append(f"{type(err).__name__}: {err}"),
+    )
+    items = []
+    try:
+        for raw, parsed in ubr:
+            items.append((raw.hex(), str(parsed)))
+            if len(items) > 400:
+                break
+        end = "end"
+    except Exception as err:  # pylint: disable=broad-except
+        end = f"{type(err).__name__}: {err}"
+    h = hashlib.sha256(repr((items, errs)).encode()).hexdigest()[:16]
+    return ["ok", "read", len(items), len(errs), end, h]
+
+
 def run_op(op, pool=None):
     """
     Execute one operation; returns a JSON-able result.  For ops on a live message
@@ -151,6 +178,8 @@ def run_op(op, pool=None):
     """
     o = op["o"]
     try:
+        if o == "read":
+            return _read_result(op)
         if o in ("parse", "new", "cfgset", "cfgdel", "cfgpoll"):
             return _msg_result(_make(op))
         msg = pool[op["pool"]] if pool is not None else _make(op["msg"])
@@ -269,7 +298,7 @@ def _build_catalogue_body():
     from pyubx2.ubxtypes_configdb import UBX_CONFIG_DATABASE  # pylint: disable=import-outside-toplevel
 
     rng = core.stream(13, "catalogue")
-    ops, fam = [], {"parse": [], "aborted": [], "new": [], "cfg": [], "tp5": [], "mutate": [], "inspect": [], "variant": []}
+    ops, fam = [], {"parse": [], "aborted": [], "new": [], "cfg": [], "tp5": [], "mutate": [], "inspect": [], "variant": [], "read": []}
     pool_src = []
 
     def add(op, *families):
@@ -336,6 +365,26 @@ def _build_catalogue_body():
         fr = W.ubx_frame(e["cls"], e["mid"], device.payload_bytes(rng, n, "random"))
         add({"o": "parse", "hex": fr.hex(), "mm": (e["modes"] or [0])[0], "val": 1, "pbf": 1}, "parse", "aborted")
         add({"o": "parse", "hex": fr[:-1].hex() + "00", "mm": 0, "val": 1, "pbf": 1}, "parse", "aborted")
+    # stream reads: mixed-protocol wires through UBXReader (SETPOLL included: same identity in both modes)
+    for i in range(60):
+        parts = []
+        mm = (0, 0, 1, 2, 3)[i % 5]
+        for _ in range(rng.randrange(1, 7)):
+            k = rng.random()
+            if k < 0.5:
+                cand = [ops[j] for j in (rng.choice(fam["parse"]) for _ in range(6)) if ops[j]["mm"] == (mm if mm != 3 else ops[j]["mm"]) and len(ops[j]["hex"]) < 400]
+                parts.append(bytes.fromhex(cand[0]["hex"]) if cand else W.ubx_frame(0x05, 0x01, b"\x06\x01"))
+            elif k < 0.7:
+                parts.append(device.nmea_any(rng)[0])
+            elif k < 0.9:
+                parts.append(device.rtcm_any(rng)[0])
+            else:
+                parts.append(device.garbage(rng, n=rng.randrange(1, 6)))
+        if mm == 3:
+            parts.append(W.ubx_frame(0x06, 0x08, b""))
+            parts.append(W.ubx_frame(0x06, 0x08, bytes.fromhex("e80301000100")))
+            parts.append(W.ubx_frame(0x06, 0x08, b""))
+        add({"o": "read", "hex": b"".join(parts).hex(), "mm": mm, "q": (0, 1, 2)[i % 3], "val": 1 if i % 4 else 0, "pbf": 1 if i % 7 else 0, "pf": 7 if i % 6 else 3}, "read")
     # configuration database helpers
     keys = list(UBX_CONFIG_DATABASE.items())
     for i in range(0, len(keys), 9):
@@ -696,6 +745,8 @@ def _pick_ops(rng, cat, n, flavour):
             i = rng.choice(fam["mutate"] + fam["inspect"])
         elif roll < 0.3:
             i = rng.choice(fam["new"])
+        elif roll < 0.36:
+            i = rng.choice(fam["read"])
         else:
             i = rng.randrange(len(ops))
         out.append(ops[i])
@@ -834,6 +885,7 @@ def run_unit(unit) -> UnitResult:
     c.hit("cfgtp5_poll_ops", sum(1 for op in ops if op.get("o") == "parse" and op["hex"][4:8] == "0631" and op["mm"] == 2))
     c.hit("config_ops", sum(1 for op in ops if op["o"].startswith("cfg")))
     c.hit("construct_ops", sum(1 for op in ops if op["o"] == "new"))
+    c.hit("read_ops", sum(1 for op in ops if op["o"] == "read"))
     if scn["mode"] == "threads":
         c.hit("granularity_" + scn["threads"]["granularity"])
         c.hit("fault_preemption", len(out["switches"] or ()))
